@@ -21,35 +21,35 @@ CHECKS = {
    text="The file switch at INCLUDE and at the end of an included file neither writes nor inspects parser state (store lint over the functions reachable from processInclude / isScanningFinished), open-context and JSIGHT tests are scoped by the include stack, scanning state is isolated per Scanner, directives of two inclusions are distinct instances, and every memo is keyed by what its value depends on. Catalog equality of split and unsplit documents is behavioural and not claimed.",
    design="DESIGN.md §5 C09",
    note=TB,
-   technique="write-effect lint at the file switch; scope conditions by dominance; memo key/value dependence analysis"),
+   technique="write-effect lint at the file switch; scope conditions by dominance; memo key/value dependence analysis; LIFO and key facts of the scanner stack from abstract evaluation of SSA"),
  "C15": dict(
    engine="rules/c09.go (C15 part)",
    category="other",
    text="Phase-order necessary condition for order independence: along the straight-line build pipeline, for each cross-block name space the phases that insert names precede the phases that resolve them; rules are attached only to fresh schemas; memo sets are insert-only and memo keys cover their values; keyword pre-filters that end a Description cover every keyword. The tag name space violates it today (recorded finding F20). Equality under permutation is behavioural and not claimed.",
    design="DESIGN.md §5 C15",
    note=TB,
-   technique="insert/resolve effect sets per pipeline phase compared along the phase order"),
+   technique="insert/resolve effect sets per pipeline phase compared along the phase order; placement invariants of processContext (abstract evaluation of SSA); end-of-Description predicate folded on the keyword table"),
  "C17": dict(
    engine="rules/c17.go (+ c01.go recover discipline)",
    category="other",
    text="'Never panics' for the module and everything the export calls: both accessors are a single call of a helper whose deferred recover assigns named results and which contains conversion and encoding; every panic/assertion site below it is listed as covered; no other entry into the converter. Plus: method exhaustiveness of assignOperation, Required=true before a path parameter is appended, response keys are codes or \"default\", post-expansion phases read the expanded directive list. Structural validity of the produced document is produced by the dependency from data and is not claimed.",
    design="DESIGN.md §5 C17",
    note=TB,
-   technique="recover-boundary coverage over the call graph; exhaustiveness and ordering rules on typed syntax"),
+   technique="recover-boundary coverage over the call graph; exhaustiveness and ordering rules on typed syntax; error-discipline lint over the export"),
  "C04": dict(
    engine="rules/c04.go (+ c03.go dropped-error rule, c16.go dependency-call rule)",
    category="other",
    text="Mechanisms behind 'accepted => serialisable': no compile/load/check error of a schema object is dropped on the build path (two sites are a recorded finding, F15), lazily computed content keeps its failure, ToJson/ToJsonIndent encode the same value, hand-written emitters write only encoder output, pseudo schemas exist only for any/empty, regex bodies are checked when built, path-variable properties bring all their types, pool-backed bytes are copied. The JDoc shape of every schema node is produced by the dependency and is not claimed.",
    design="DESIGN.md §5 C04",
    note=TB + "F15 is listed in known_findings.json (repair attempted, breaks pinned snapshots).",
-   technique="error-discipline lint over the reachable call graph; structural rules on emitters and constructors"),
+   technique="error-discipline lint over the reachable call graph; structural rules on emitters and constructors; emitted key table compared with a frozen reference; required arrays initialised on every path to the encoder"),
  "C16": dict(
    engine="rules/effects.go (E5 write effects over SSA) + rules/c16.go",
    category="other",
    text="For the module's code: interprocedural write effects (fixpoint over SSA, Once closures cut) show that nothing reachable from the five accessors or from MarshalJSON/MarshalText writes into pre-existing catalog/core/directive objects or package state; Once closures keep their state in the object; stateful dependency calls are Once-memoised and pool-backed bytes are copied before being kept. Byte equality inside the dependency is trusted (classification table depAPI).",
    design="DESIGN.md §5 C16",
    note=TB + "Heap freshness is allocation-site based (no points-to analysis in x/tools v0.29.0).",
-   technique="mod/ref (write-effect) analysis on go/ssa with a VTA call graph; classification table for dependency calls"),
+   technique="mod/ref (write-effect) analysis on go/ssa with a VTA call graph (standard-library sorters count as writers); classification table for dependency calls; once-closure totality (no reachable panic site unless it recovers)"),
  "C18": dict(
    engine="rules/c18.go + effects.go + c06.go (package state)",
    category="other",
@@ -70,21 +70,21 @@ CHECKS = {
    text="Mechanisms behind 'one fault, rejected at the fault': insert-only-after-pure-presence-test for every name-keyed collection and single-valued slot (closures passed to Update tied to the value tested before), uniqueness sets never reset and never short-cut by 'exists, skip' lookups, every fault-class message still raised on a reachable path, handler errors located on the handler's own directive, no dropped error on the build path, annotation used or rejected per kind, JSIGHT-first before anything is added. Which check fires first for each fault x layout is not claimed.",
    design="DESIGN.md §5 C03",
    note=TB + "Errors of a macro body are relocated to the PASTE line by design (named exception).",
-   technique="dominance of guard tests over insertions (go/cfg), liveness of error constants over the call graph, receiver-provenance lint"),
+   technique="dominance of guard tests over insertions (go/cfg), lifted to the callers of helpers; liveness of error constants over the call graph; receiver-provenance lint"),
  "C05": dict(
    engine="rules/c02.go (C05 part) + rules/c03.go",
    category="other",
-   text="Both sides of each cross-reference are written together from one value: tag<->interaction pairing, id/key/protocol/method/path derivation, pure presence test before every insertion, tag source priority, body test on every response iteration, JSIGHT version constant. usedUserTypes closure and exact pathVariables are produced by the dependency from data and are not claimed; the response-code range is decided under C13.",
+   text="Both sides of each cross-reference are written together from one value: tag<->interaction pairing, id/key/protocol/method/path derivation, pure presence test before every insertion, tag source priority, body test on every response iteration, Update closures hand back the entry they were given, only codes inside the response-code range become a response directive, JSIGHT version constant. usedUserTypes closure and exact pathVariables are produced by the dependency from data and are not claimed.",
    design="DESIGN.md §5 C05",
    note=TB,
-   technique="value-identity and pairing rules on typed syntax; must-pass-through inside loops"),
+   technique="value-identity and pairing rules on typed syntax (lifted to the callers of shared helpers); must-pass-through inside loops; NewDirectiveType folded on the bounds of the response-code range"),
  "C01": dict(
    engine="E1 scanner automaton + rules/c01.go, nilness.go, cgraph.go (AST, go/cfg, SSA, VTA call graph)",
    category="other",
    text="Absence of the crash and hang mechanisms that are visible in the code, for every input: each explicit panic, unchecked assertion, nil-able field / GetValue result dereference, value used on its error branch, promoted method over a nil embedded interface and constant index reachable from the build entry points is an obligation with a named discharge; recover handlers assign named results; the scanner automaton never underflows and every cycle consumes input; every recursive call-graph component and non-range loop has a verified termination witness; no lock re-entry under map locks; include cycles refused. Running time, and anything inside jsight-schema-core, is not claimed.",
    design="DESIGN.md §5 C01",
    note=TB + "Named exceptions (one symbol + reason each) are listed in the evidence. Reachability treats a function as callable once it is referenced in reachable code.",
-   technique="reachability over the VTA call graph + per-site discharge rules (dominance on go/cfg, table-backed invariants), pushdown analysis of the extracted scanner automaton, SCC termination witnesses"),
+   technique="reachability over the VTA call graph + per-site discharge rules (dominance on go/cfg, table-backed invariants), pushdown analysis of the extracted scanner automaton, SCC termination witnesses (strict structural / visited-set verification, named assumptions for the rest), loop measures on go/cfg"),
  "C06": dict(
    engine="rules/c06.go",
    category="other",
@@ -98,42 +98,42 @@ CHECKS = {
    text="Exhaustive over the 256-byte alphabet and unbounded length: the keyword automaton is extracted from the source of the step functions by partial evaluation and compared, as a language, with the directive table; terminator set, error position, table agreement decided on the same model. This is the right level because the keyword trie is finite and fully visible in the code; 0 traces are validated against the running implementation by construction of a static technique.",
    design="DESIGN.md §5 C13",
    note=TB + "Assumes Next() is the only driver of step functions (checked: NUL guard present, else violation). Does not cover what core does with an accepted keyword beyond table agreement.",
-   technique="abstract interpretation of step functions per byte; language equality between extracted trie and extracted directive table"),
+   technique="abstract interpretation of step functions per byte; language equality between extracted trie and extracted directive table; NewDirectiveType and IsStartWithDirective folded on the table's own constants"),
  "C12": dict(
    engine="E1 scanner automaton (pushdown exploration)",
    category="other",
    text="Well-formedness of the lexeme stream (bracketing, extent >= -1, order, positions) decided for all byte strings on a k-bounded pushdown abstraction of the extracted automaton that over-approximates the scanner (data-dependent branches free). Byte-for-byte equality with the rendered document is a runtime round trip and is not claimed.",
    design="DESIGN.md §5 C12",
    note=TB + "Schema/enum body extents are delegated to the dependency's Len() (trusted <= remaining input).",
-   technique="reachability on a pushdown system extracted from source; typestate of lexeme events"),
+   technique="reachability on a pushdown system extracted from source; typestate of lexeme events; begin/end pairing and the end-of-Description predicate folded on constants (abstract evaluation of SSA)"),
  "C08": dict(
    engine="E1 scanner automaton",
    category="other",
    text="Necessary conditions of layout independence that are visible in the automaton: LF/CR and SP/TAB symmetry per state, comment push/pop/re-feed discipline, blank lines event-free and idempotent, both annotation forms available and '*/' always closing. Catalog equality under rewrites is behavioural and not claimed.",
    design="DESIGN.md §5 C08",
    note=TB + "Description de-indentation and annotation whitespace normalisation are checked only as far as the named rules say.",
-   technique="symmetry and typestate checks on the extracted scanner automaton"),
+   technique="symmetry and typestate checks on the extracted scanner automaton; interprocedural unquote/normaliser lints; end-of-Description predicate folded for every follower byte"),
  "C10": dict(
    engine="rules/c10.go (AST + go/cfg + go/types)",
    category="other",
-   text="Decides the mechanisms PASTE transparency rests on: macro cycles of any length are rejected before expansion (three-colour visited-state discipline verified on the CFG: mark-before-descend, done-on-every-nil-return, on-path test before entering), undefined/unnamed macros are errors, MACRO definitions are removed before expansion, expansion works on reset copies and restores the copy's parent after an explicit context. Equality with the in-place text for every call site is behavioural and not claimed.",
+   text="Decides the mechanisms PASTE transparency rests on: macro cycles of any length are rejected before expansion (three-colour visited-state discipline verified on the CFG: mark-before-descend, done-on-every-nil-return, on-path test before entering), undefined/unnamed macros are errors, MACRO definitions are removed before expansion, expansion works on reset copies and restores the copy's parent after an explicit context, copies are never identified by coordinates, the ENUM rules of a body are collected on every path before it is expanded, the recursion check visits every sibling, a PASTE after an implicit Description is recognised. Equality with the in-place text for every call site is behavioural and not claimed.",
    design="DESIGN.md §5 C10",
    note=TB + "The rule recognises the visited-state idiom (map from macro name to a named integer state); a different algorithm is reported as undecided/violation rather than accepted.",
-   technique="typestate/pairing and dominance rules over go/cfg; who-may-write rule for the context field"),
+   technique="typestate/pairing and dominance rules over go/cfg; who-may-write rule for the context field; who-may-call rule for coordinate-equality predicates; must-pass-through (rules collected before a body is expanded)"),
  "C11": dict(
    engine="E2 directive tables + rules/c11.go + E1",
    category="other",
-   text="The context table in the source equals the frozen JSight 0.3 reference pair by pair, and the resolution algorithm has the required control structure (single context cursor, attach only under the allowed lookup, walk-up only from implicit contexts, explicit contexts reject, ')' closes the innermost explicit context). The verdict for each concrete directive sequence (table x algorithm product) is not enumerated.",
+   text="The context table in the source equals the frozen JSight 0.3 reference pair by pair, and the resolution algorithm has the required control structure (single context cursor, attach only under the allowed lookup, walk-up only from implicit contexts, explicit contexts reject, ')' closes the innermost explicit context, a directive is placed exactly once - as a child or in the root list - on every successful path, the pending directive is finalised before ')' and before the end-of-file test). The verdict for each concrete directive sequence (table x algorithm product) is not enumerated.",
    design="DESIGN.md §5 C11",
    note=TB + "tools/reference/context_table.json is the oracle for the table; it was derived from the pinned tree and reviewed against the language description.",
-   technique="typed-literal table extraction compared with a reference relation; control-dependence/dominance rules on processContext"),
+   technique="typed-literal table extraction compared with a reference relation; dominance rules on processContext; path/term invariants of processContext and closeLastExplicitContext from abstract evaluation of SSA (internal/ssaeval)"),
  "C14": dict(
    engine="rules/c14.go + rules/strpred.go (predicate automaton)",
    category="other",
-   text="For all parameter strings and include graphs (modulo symlinks/OS path semantics): who-may-call for file primitives, validate-before-stat on the same value, language inclusion of the name predicate in the safe language decided on a product automaton (counterexample word printed), and the cycle guard of the scanner stack. Thorough tier repeats who-may-call over the whole-program VTA call graph through the dependency.",
+   text="For all parameter strings and include graphs (modulo symlinks/OS path semantics): who-may-call for file primitives, validate-before-stat on the same value, language inclusion of the name predicate in the safe language decided on a product automaton (counterexample word printed), the cycle guard of the scanner stack (decided on the abstract evaluation of Stack.Push/Pop: lookup missed, same term inserted, key is the unwrapped Name() of the scanner's file, Pop deletes it), and an INCLUDE after an implicit Description is recognised as a directive. Thorough tier repeats who-may-call over the whole-program VTA call graph through the dependency.",
    design="DESIGN.md §5 C14",
    note=TB + "A predicate written outside the supported atom set (==, s[0], len, strings.Contains/HasPrefix/HasSuffix/ContainsRune/ContainsAny, range over strings.Split) is reported as undecided.",
-   technique="who-may-call + must-pass-through on go/cfg; regular-language inclusion of the extracted name predicate"),
+   technique="who-may-call by role + flow of the validated path through parameters; must-pass-through on go/cfg; regular-language inclusion of the extracted name predicate; path/term facts of Stack.Push/Pop from abstract evaluation of SSA (internal/ssaeval)"),
  "C19": dict(
    engine="rules/c19.go",
    category="other",
